@@ -27,6 +27,11 @@ func (vc *VC) Encode() (err error) {
 		e := vc.newFnEnc(vc.Fn, "", true)
 		e.runTop()
 		if !vc.newKey {
+			for cl, why := range e.stepSkipped {
+				if !e.stepDone[cl] {
+					return fmt.Errorf("%s: loop step clause %q could not be evaluated on any back edge: %s", FuncKey(vc.Fn), cl.Src, why)
+				}
+			}
 			return nil
 		}
 	}
@@ -214,6 +219,10 @@ func (e *fnEnc) block(b *ssa.BasicBlock, entryGuard string) {
 		r := vc.decl(fmt.Sprintf("%sreach!%d", e.prefix, b.Index), "Bool")
 		vc.def(sEq(r, sOr(edges...)))
 		e.reach[b] = r
+		// early-exit obligations: an edge from inside a loop's body to this block outside it
+		if e.top && e.contract != nil && len(e.contract.Exits) > 0 && !e.inlineAssume {
+			e.earlyExitObligations(b, preds, edges)
+		}
 		// loop entry obligations use the predecessor states
 		if li != nil {
 			for i, p := range preds {
@@ -574,8 +583,21 @@ func (e *fnEnc) loopObligations(li *loopInfo, from *ssa.BasicBlock, guard, kind 
 			}
 			f, err := env.Bool(cl.Expr)
 			if err != nil {
+				if strings.Contains(err.Error(), "unknown name") {
+					// a local of the body is not defined on this way round the loop (an early "continue"): the relation
+					// says nothing about such an iteration. The clause must still be evaluable on some back edge.
+					if e.stepSkipped == nil {
+						e.stepSkipped = map[*Clause]string{}
+					}
+					e.stepSkipped[cl] = err.Error()
+					continue
+				}
 				e.fail("loop %d step %q: %v", li.ordinal, cl.Src, err)
 			}
+			if e.stepDone == nil {
+				e.stepDone = map[*Clause]bool{}
+			}
+			e.stepDone[cl] = true
 			props := cl.Props
 			if len(props) == 0 {
 				props = e.contract.AllProps()
@@ -842,4 +864,52 @@ func (e *fnEnc) singleValueOf(obj types.Object, at *ssa.BasicBlock) ssa.Value {
 		}
 	}
 	return val
+}
+
+// earlyExitObligations: for every loop with an "exits-early-only-if P" clause, an edge p -> b that leaves the loop from a
+// body block other than the head (break, return, goto out of the loop) must satisfy P, evaluated at the end of p.
+func (e *fnEnc) earlyExitObligations(b *ssa.BasicBlock, preds []*ssa.BasicBlock, edges []string) {
+	var lis []*loopInfo
+	for _, li := range e.loops {
+		lis = append(lis, li)
+	}
+	sort.Slice(lis, func(i, j int) bool { return lis[i].ordinal < lis[j].ordinal })
+	for _, li := range lis {
+		if li.body[b] || b == li.head {
+			continue
+		}
+		for i, p := range preds {
+			if !li.body[p] || p == li.head {
+				continue
+			}
+			for k, cl := range e.contract.Exits {
+				if e.clauseLoop(cl) != li.ordinal {
+					continue
+				}
+				heap := e.heapOut[p]
+				env := e.newEnv()
+				env.heapAt = heap
+				env.oldHeap = e.entryHeap
+				pp := p
+				env.lookup = func(name string) (TV, bool) { return e.varAtIdx(name, pp, len(pp.Instrs), nil, heap) }
+				saved := e.cur
+				e.cur = copyMap(heap)
+				f, err := env.Bool(cl.Expr)
+				e.cur = saved
+				if err != nil {
+					e.fail("loop %d exits-early-only-if %q: %v", li.ordinal, cl.Src, err)
+				}
+				props := cl.Props
+				if len(props) == 0 {
+					props = e.contract.AllProps()
+				}
+				tag := cl.Tag
+				if tag == "" {
+					tag = fmt.Sprintf("x%d", k)
+				}
+				name := e.vc.ordinal(fmt.Sprintf("%s#early-exit:loop%d.%s", FuncKey(e.fn), li.ordinal, tag))
+				e.vc.oblige(&Obligation{Name: name, Kind: "early-exit", Guard: edges[i], Cond: f, Props: props, Src: "exits-early-only-if " + cl.Src, Pos: e.loopPos(li.head)})
+			}
+		}
+	}
 }
